@@ -126,6 +126,8 @@ class Gen:
         queries the trace monitor needs: emptiness and flag of the source before, of both afterwards"""
         probe = self.r.chance(p)
         if probe:
+            if how in ("mv", "masg") and self.r.chance(0.6):
+                self.emit("parentS? S%d" % x)
             self.emit("emptyS? S%d" % x)
             self.emit("blockedS? S%d" % x)
         self.emit("%sS S%d S%d" % (how, d, x))
@@ -298,6 +300,60 @@ class Gen:
             self.emit("%sS S%d S%d" % (how, victim, e))
         self.probes([victim])
         self.emit("live? %d" % self.fid())
+
+    def t_stale_parent_move(self):
+        """a variable that had a parent, was invalidated while it had it, was given a new functor and is then
+        moved from: it has no parent any more, so the move must empty it"""
+        self.tags.add("stale-parent-move")
+        a = self.mk(kinds=[("fn", 4), ("mem", 3)])
+        o = self.s_new()
+        self.emit("mkS S%d sref:%d:S%d" % (o, self.fid(), a))
+        self.S.add(o)
+        if self.r.chance(0.5):
+            self.emit("parentS? S%d" % a)
+        m = re.search(r"mem:\d+:T(\d+)$", self.lines[-3] if len(self.lines) >= 3 else "")
+        if m and self.r.chance(0.4):
+            self.emit("%s T%s" % ("delT" if self.r.chance(0.5) else "notifyT", m.group(1)))
+        else:
+            self.emit("discS S%d" % a)
+        if self.r.chance(0.85):
+            self.emit(self.r.choice(["delS S%d", "setS S%d fn:1", "clrS S%d"]) % o)
+            if self.lines[-1].startswith("delS"):
+                self.S.discard(o)
+        g = self.fid()
+        how = self.r.weighted([("set", 5), ("asg", 2), ("masg", 2)])
+        if how == "set":
+            self.emit("setS S%d fn:%d" % (a, g))
+        else:
+            x = self.s_new()
+            if x in self.S:
+                self.emit("setS S%d fn:%d" % (x, g))
+            else:
+                self.emit("mkS S%d fn:%d" % (x, g))
+                self.S.add(x)
+            self.emit("%sS S%d S%d" % (how, a, x))
+        if self.r.chance(0.3):
+            self.emit("blockS S%d %d" % (a, self.r.below(2)))
+        self.emit("parentS? S%d" % a)
+        self.emit("emptyS? S%d" % a)
+        self.emit("blockedS? S%d" % a)
+        if self.r.chance(0.6):
+            self.emit("live? %d" % g)
+        d = self.s_new()
+        if self.r.chance(0.5):
+            if d in self.S:
+                self.emit("delS S%d" % d)
+            self.emit("mvS S%d S%d" % (d, a))
+        else:
+            if d not in self.S:
+                self.emit("mkS0 S%d" % d if self.r.chance(0.5) else "mkS S%d fn:%d" % (d, self.fid()))
+            self.emit("masgS S%d S%d" % (d, a))
+        self.S.add(d)
+        self.emit(("emptyS? S%d" if self.r.chance(0.6) else "boolS? S%d") % a)
+        if self.r.chance(0.6):
+            self.emit("live? %d" % g)
+        self.emit("blockedS? S%d" % d)
+        self.emit("callS S%d %d" % (self.r.choice([a, d]), self.arg()))
 
     def t_own_chain(self):
         self.tags.add("own-chain")
@@ -478,17 +534,17 @@ class Gen:
 
     def program(self):
         f = self.focus
-        tw = {"C06": [("conn", 5), ("selfown", 6), ("chain", 4), ("parented", 2), ("outer", 3), ("xp", 1), ("eao", 3), ("none", 3)],
-              "C12": [("parented", 9), ("conn", 2), ("selfown", 1), ("chain", 1), ("outer", 2), ("xp", 1), ("eao", 1), ("none", 3)],
-              "C04": [("conn", 10), ("selfown", 2), ("chain", 2), ("parented", 2), ("outer", 2), ("xp", 1), ("eao", 2), ("none", 3)],
-              "C15": [("parented", 6), ("conn", 4), ("selfown", 2), ("chain", 3), ("outer", 5), ("xp", 1), ("eao", 2), ("none", 3)]}[f]
+        tw = {"C06": [("conn", 5), ("selfown", 6), ("chain", 4), ("parented", 2), ("outer", 3), ("xp", 1), ("eao", 3), ("stale", 1), ("none", 3)],
+              "C12": [("parented", 9), ("conn", 2), ("selfown", 1), ("chain", 1), ("outer", 2), ("xp", 1), ("eao", 1), ("stale", 3), ("none", 3)],
+              "C04": [("conn", 10), ("selfown", 2), ("chain", 2), ("parented", 2), ("outer", 2), ("xp", 1), ("eao", 2), ("stale", 1), ("none", 3)],
+              "C15": [("parented", 6), ("conn", 4), ("selfown", 2), ("chain", 3), ("outer", 5), ("xp", 1), ("eao", 2), ("stale", 4), ("none", 3)]}[f]
         n_tpl = self.r.weighted([(1, 5), (2, 4), (3, 1)])
         for _ in range(self.r.below(4)):
             self.rand_op()
         for _ in range(n_tpl):
             k = self.r.weighted(tw)
             {"conn": self.t_conn_move, "selfown": self.t_self_own, "chain": self.t_own_chain,
-             "parented": self.t_parented_move, "xp": self.t_parent_exchange, "outer": self.t_outer_copy, "eao": self.t_empty_assign_owned, "none": self.rand_op}[k]()
+             "parented": self.t_parented_move, "xp": self.t_parent_exchange, "outer": self.t_outer_copy, "eao": self.t_empty_assign_owned, "stale": self.t_stale_parent_move, "none": self.rand_op}[k]()
             for _ in range(self.r.below(5)):
                 self.rand_op()
         # closing probes: everything observable about what is left
@@ -633,6 +689,15 @@ def monitor(prog, lines):
            assignment from a fresh slot) are unblocked.
            What is NOT relied on: the flag after a copy/assignment from an empty source and after `clrS`
            (the statements do not fix it) — the expectation is dropped there.
+      M1   C15 "moving from a slot leaves the source empty" — the only exception the library makes is a source
+           that *currently has a parent* (observable: `parentS? S => 1`).  If `parentS? S => 0` was observed and
+           nothing since could have given S a parent, then after `mvS D S` / `masgS D S` with S observed non-empty
+           just before, `emptyS? S` must report 1 and `boolS? S` 0, and `live?` of S's functor id, if it was
+           queried right before and right after, must not have grown (a move makes no copy).
+           "Could have given S a parent" (the knowledge is dropped): a functor spec `sref:…:S` is instantiated
+           (mkS/setS); a copy/assignment/move whose source variable may hold a functor referring to S (a variable
+           is such a holder from the `sref:…:S` spec it was given, or from a copy/assignment/move out of a holder,
+           until it is given another functor, emptied by name or destroyed); S itself is created anew.
       B2   a slot expected to be blocked, or just observed empty, logs no call and returns 0.
       P1   C15 "destroying, disconnecting … or reassigning one [copy] never affects the other": while only copies
            made after `parentS? I => 1` was observed are destroyed / emptied / disconnected / given a plain functor
@@ -650,6 +715,12 @@ def monitor(prog, lines):
     gone = set()         # connection names whose variable was destroyed by name
     watch = {}           # inner slot name -> trace index of the first `parentS? => 1` of the current window
     born = {}            # slot name -> trace index at which its present content was made as a copy / harmless new
+    noparent = {}        # slot name -> trace index of `parentS? => 0` while nothing could have given it a parent
+    holders = collections.defaultdict(set)   # slot name S -> variables that may hold a functor referring to S
+    fid = {}             # slot name -> id of the functor it stores (while certain)
+    must_empty = {}      # moved-from source that must be observed empty -> (trace index of the move, parent line)
+    live_seen = {}       # functor id -> count observed since the last non-neutral operation
+    live_before = {}     # moved-from source -> (functor id, count observed right before the move)
     calls = 0
     for idx, ln in enumerate(lines):
         if re.match(r"^\d+ call f\d+ \d+$", ln):
@@ -687,7 +758,68 @@ def monitor(prog, lines):
                     ok = True
                 if not ok:
                     del watch[inner]
+        # ---- M1 bookkeeping: who may refer to whom, functor ids, what may give a variable a parent
+        if op in ("mkS", "setS"):
+            v, spec = args[0], args[1].split(":")
+            for hs in holders.values():
+                hs.discard(v)
+            if spec[0] == "sref":
+                holders[spec[2]].add(v)
+                noparent.pop(spec[2], None)
+            fid[v] = spec[1]
+            if op == "mkS":
+                noparent.pop(v, None)
+        elif op == "mkS0":
+            for hs in holders.values():
+                hs.discard(args[0])
+            fid.pop(args[0], None)
+            noparent.pop(args[0], None)
+        elif op in ("cpS", "asgS", "mvS", "masgS") and args[0] != args[1]:
+            d, x = args[0], args[1]
+            for tgt, hs in holders.items():
+                if x in hs:
+                    noparent.pop(tgt, None)     # a clone of a functor referring to tgt binds tgt
+                    hs.add(d)
+                else:
+                    hs.discard(d)
+            if op in ("cpS", "mvS"):
+                noparent.pop(d, None)           # a new variable
+            if x in fid:
+                fid[d] = fid[x]
+            else:
+                fid.pop(d, None)
+        elif op in ("clrS", "delS"):
+            for hs in holders.values():
+                hs.discard(args[0])
+            fid.pop(args[0], None)
+            if op == "delS":
+                noparent.pop(args[0], None)
         # ---- per operation
+        if op == "live?":
+            f = args[0]
+            for v, (fv, n0, t_mv, t_par) in list(live_before.items()):
+                if fv == f and v in must_empty and int(res) > n0:
+                    bad.append("M1 (C15 moving leaves the source empty, no copy is made): `%s` but it was %d right "
+                               "before `%s` (trace line %d), and %s had no parent (`parentS? => 0`, trace line %d)"
+                               % (ln[2:], n0, lines[t_mv][2:], t_mv + 1, v, t_par + 1))
+                    del live_before[v]
+            live_seen[f] = int(res)
+        if op in ("mvS", "masgS") and args[0] != args[1]:
+            x = args[1]
+            if x in noparent and nonempty.get(x) is False:
+                must_empty[x] = (idx, noparent[x])
+                if fid.get(x) in live_seen:
+                    live_before[x] = (fid[x], live_seen[fid[x]], idx, noparent[x])
+        if op in ("emptyS?", "boolS?") and args[0] in must_empty:
+            t_mv, t_par = must_empty[args[0]]
+            still = (res == "0") if op == "emptyS?" else (res == "1")
+            if still:
+                bad.append("M1 (C15 moving from a slot leaves the source empty): `%s` after `%s` (trace line %d) "
+                           "although %s had no parent (`parentS? => 0`, trace line %d) and nothing since could have "
+                           "given it one" % (ln[2:], lines[t_mv][2:], t_mv + 1, args[0], t_par + 1))
+                del must_empty[args[0]]
+        if op == "parentS?" and res == "0":
+            noparent[args[0]] = idx
         if op in ("blockS", "unblockS", "blockedS?"):
             v = args[0]
             pending.pop(v, None)                    # not judged: its emptiness was not observed first
@@ -798,6 +930,15 @@ def monitor(prog, lines):
                 bad.append("K1 (C04): `%s` after the variable was destroyed" % ln[2:])
         if op not in _NEUTRAL:
             nonempty.clear()
+            live_seen.clear()
+            if not (op in ("mvS", "masgS") and args[0] != args[1]):
+                must_empty.clear()
+                live_before.clear()
+            else:
+                for v in list(must_empty):
+                    if must_empty[v][0] != idx:
+                        del must_empty[v]
+                        live_before.pop(v, None)
     return bad
 
 
